@@ -435,6 +435,7 @@ def gen_step(u, rng, props):
             ("symexpr", "clear", pick("bi"), None, None),
             ("symexpr", "assign", pick("bi"), rng.choice([0, 8]), pick("y")),
             ("lookup", rng.choice(u.names("bi") + u.names("s") + u.names("m") + u.names("ir")), rng.randint(0, len(QUERIES) - 1)),
+            ("ctor", "bi", pick("b")), ("ctor", "s", pick("bi")), ("ctor", "m", pick("s")),
             ("flag", pick("s"), rng.choice(["Readable", "Writable", "Executable"]), rng.choice(["add", "discard"])),
             ("aux", rng.choice(u.names("ir") + u.names("m")), rng.choice(["k1", "k2"]), rng.choice(["set", "del"])),
             ]
@@ -508,6 +509,21 @@ def apply_step(u, step):
                 b.symbolic_expressions.clear()
             elif what == "assign":
                 b.symbolic_expressions = {k: g.SymAddrConst(1, n[y]), k + 4: g.SymAddrConst(2, n[y])}
+        elif op == "ctor":
+            # a move through a constructor argument: a new parent is built with an existing node as its child
+            k = 900 + len(n)
+            name = "%s%d" % (step[1], k)
+            if name in n or len(n) > 60:
+                return None
+            child = n[step[2]]
+            if step[1] == "bi":
+                n[name] = g.ByteInterval(address=0x300, size=0x40, uuid=U(k), blocks=[child])
+            elif step[1] == "s":
+                n[name] = g.Section(name=name, uuid=U(k), byte_intervals=[child])
+                u.shadow_flags[name] = set()
+            else:
+                n[name] = g.Module(name=name, uuid=U(k), sections=[child])
+                u.shadow_aux[name] = set()
         elif op == "flag":
             fl = getattr(g.Section.Flag, step[2])
             getattr(n[step[1]].flags, step[3])(fl)
